@@ -20,6 +20,8 @@ PAYLOADS_NOSLASH = [
     # (octal, hex, group references), printf/format syntax, a percent-escape next to live markup
     "\\074xss-7\\040onx-7=1\\076", "\\x3cxss-7\\x3e", "\\g<0>\\1\\n", "\\u003cxss-7\\u003e", "a\\", "%s%(x)s%n{0}{x!r}",
     'up%20to"><xss-7 onx-7=1>', "a%41'><xss-7 onx-7='1", "%3Cxss-7%3E<xss-7>", "100%<xss-7>",
+    # nothing but blanks and an equals sign: enough to end an attribute value that is not quoted
+    "x onx-7=1 y", " onx-7=alert(1) ", "a\u00a0onx-7=1\u00a0b",
 ]
 PAYLOADS_SLASH = ["</TT></A><xss-7>", "</a><xss-7 onx-7=1>", "</p></card><xss-7>", "</TITLE><xss-7>", "<xss-7/>",
                   "</TD></TR><TR onx-7=1>"]
@@ -101,9 +103,13 @@ class FileName(Position):
     def build(self, t, p):
         t.file("d/" + p + ".txt", "x\n")
         t.file("d/other.txt", "y\n")
+        # ... and as the last of more entries than a WAP card has access keys for
+        for k in range(13):
+            t.file("d2/a%02d.txt" % k, "x\n")
+        t.file("d2/zz" + p + ".txt", "x\n")
 
     def requests(self, p):
-        return [(v, b"/d") for v in ("http", "https", "wap")]
+        return [(v, b"/d") for v in ("http", "https", "wap")] + [(v, b"/d2") for v in ("http", "wap")]
 
 
 class DirName(Position):
@@ -177,13 +183,21 @@ class GophermapDesc(Position):
     name = "gophermap-description-and-selector"
 
     def build(self, t, p):
-        t.file("g/gophermap", "info " + p + "\n0Desc " + p + "\t/g/x.txt\n1Rel " + p + "\tsub " + p.replace("/", "_") + "\n"
-               "hWeb\tURL:http://example.org/" + p + "\nhWeb2 " + p + "\tURL:http://example.org/ok\n"
-               "1Remote " + p + "\t/sel " + p + "\thost.example.org\t70\n1Evilhost\t/s\thost" + p.replace("/", "_") + "\t70\n")
+        body = ("info " + p + "\n0Desc " + p + "\t/g/x.txt\n1Rel " + p + "\tsub " + p.replace("/", "_") + "\n"
+                "hWeb\tURL:http://example.org/" + p + "\nhWeb2 " + p + "\tURL:http://example.org/ok\n"
+                "1Remote " + p + "\t/sel " + p + "\thost.example.org\t70\n1Evilhost\t/s\thost" + p.replace("/", "_") + "\t70\n"
+                # search items: rendered as forms, not as links
+                "7Find " + p + "\t/g/find " + p + "\n7Findremote\t/find\tsearch.example.org " + p.replace("/", "_") + "\t70\n"
+                "7Findurl\tURL:http://example.org/find " + p + "\n7Findremote2 " + p + "\t/f " + p + "\tsearch.example.org\t70\n")
+        t.file("g/gophermap", body)
         t.file("g/x.txt", "x\n")
+        # the same entries after more links than a WAP card has access keys for
+        filler = "".join("0Filler %d\t/g/x.txt\n" % k for k in range(13))
+        t.file("g2/gophermap", filler + body.replace("/g/", "/g2/"))
+        t.file("g2/x.txt", "x\n")
 
     def requests(self, p):
-        return [(v, b"/g") for v in ("http", "https", "wap")]
+        return [(v, b"/g") for v in ("http", "https", "wap")] + [(v, b"/g2") for v in ("http", "wap")]
 
 
 class LinkFile(Position):
@@ -194,17 +208,28 @@ class LinkFile(Position):
         t.file("l/.Links", "Name=Link " + p + "\nType=1\nPath=/somewhere/" + p + "\nHost=+\nPort=+\n\n"
                "Name=URL " + p + "\nType=h\nPath=/URL:http://example.org/" + p + "\nHost=+\nPort=+\n\n"
                "Name=Remote\nType=1\nPath=/r" + p + "\nHost=h" + p.replace("/", "_").replace(" ", "_") + ".example\nPort=70\n\n"
-               "Path=./real.txt\nName=Renamed " + p + "\nAbstract=abs " + p + "\n\n"
+               "Path=./real.txt\nName=Renamed " + p + "\nAbstract=abs " + p + " (end)\n\n"   # (a trailing backslash would continue the line)
                # entries without a Name=: whatever is shown instead comes from the path
                "Type=1\nPath=/nameless/" + p + "\nHost=+\nPort=+\n\n"
                "Type=0\nPath=/nameless-q/" + urllib.parse.quote(p, safe="") + "\nHost=+\nPort=+\n\n"
                "Type=h\nPath=/URL:http://example.org/nameless/" + p + "\nHost=+\nPort=+\n\n"
                "Type=h\nPath=/URL:http://example.org/nameless-q/" + urllib.parse.quote(p, safe="") + "\nHost=+\nPort=+\n\n"
                "Type=1\nPath=/rn" + p + "\nHost=remote.example\nPort=70\n\n"
-               "Type=1\nPath=/rnq" + urllib.parse.quote(p, safe="") + "\nHost=remote.example\nPort=70\n")
+               "Type=1\nPath=/rnq" + urllib.parse.quote(p, safe="") + "\nHost=remote.example\nPort=70\n\n"
+               # search items (forms), local and remote
+               "Name=Find " + p + "\nType=7\nPath=/find " + p + "\nHost=+\nPort=+\n\n"
+               "Name=Findremote\nType=7\nPath=/find\nHost=search.example " + p.replace("/", "_") + "\nPort=70\n\n"
+               "Name=Findurl\nType=7\nPath=/URL:http://example.org/find " + p + "\nHost=+\nPort=+\n")
+        # the same link file in a directory with more entries than a WAP card has access keys for; the
+        # links sort after the files
+        for k in range(13):
+            t.file("l2/ %02d.txt" % k, "x\n")          # (sorts before every payload-derived name)
+        t.file("l2/real.txt", "x\n")
+        t.nodes[b"l2/.Links"] = dict(t.nodes[b"l/.Links"])
+        t.nodes[b"l2/.Links"]["data"] = t.nodes[b"l/.Links"]["data"].replace(b"Name=", b"Name=zz ")
 
     def requests(self, p):
-        return [(v, b"/l") for v in ("http", "https", "wap")]
+        return [(v, b"/l") for v in ("http", "https", "wap")] + [(v, b"/l2") for v in ("http", "wap")]
 
 
 class UrlRedirect(Position):
